@@ -113,6 +113,15 @@ func init() {
 		directed{"in_sender", "btc", []string{"start", "in_agreement", "settle"}},
 		directed{"in_sender", "lbtc", []string{"start", "in_agreement", "cancel", "settle"}},
 		directed{"in_receiver", "btc", []string{"request", "otb", "settle"}},
+		// makers pushed into WaitCsv / the CSV claim in every way
+		directed{"out_receiver", "btc", []string{"request", "paid_fee", "cancel", "settle"}},
+		directed{"out_receiver", "lbtc", []string{"request", "paid_fee", "cancel", "restart", "settle"}},
+		directed{"in_sender", "btc", []string{"start", "in_agreement", "cancel", "csv", "settle"}},
+		directed{"out_receiver", "btc", []string{"request", "paid_fee", "csv", "settle"}},
+		// takers at every later wait
+		directed{"out_sender", "btc", []string{"start", "out_agreement", "otb", "tx_confirmed", "settle"}},
+		directed{"in_receiver", "lbtc", []string{"request", "otb", "restart", "settle"}},
+		directed{"in_receiver", "btc", []string{"request", "otb", "tx_confirmed", "settle"}},
 		// a record written by the very first store write of a swap (state "")
 		directed{"out_sender", "btc", []string{"crash_fresh@1", "settle"}},
 		directed{"in_sender", "lbtc", []string{"crash_fresh@1", "settle"}},
